@@ -8,7 +8,7 @@ ALL = ["C%02d" % i for i in range(1, 20)]
 CHECKS = {
  "C01": dict(
   category="exploration",
-  text="Each of the 61 indicator Compute methods is executed on channels for the default and many seeded random admissible configurations, 13-14 series classes (walks, ties, plateaus, flat, monotone, degenerate bars, outliers, prices in a unit 2^40 times larger/smaller, zero/negative integers for additive types) and several lengths; every output position is compared with a slice reference written from the doc comment and evaluated directly on its window (no shared code with the library), tolerance 1e-9 x natural scale, ill-conditioned positions exempt and counted. Known deviations are recognised only through one-switch deviation models (anything else is a violation). Bounded exploration: holds for the sampled configurations and series.",
+  text="Each of the 61 indicator Compute methods is executed on channels for the default and many seeded random admissible configurations, 13-14 series classes (walks, ties, plateaus, flat, monotone, degenerate bars, outliers, prices in a unit 2^40 times larger/smaller, zero/negative integers for additive types) and several lengths; every output position is compared with a slice reference written from the doc comment and evaluated directly on its window (no shared code with the library), tolerance 1e-9 x natural scale, ill-conditioned positions exempt and counted. Every other random configuration is reached through the public fields of a default instance; parameterless constructors are compared with the documented defaults; every exported float field reachable from a default instance must influence the values. Known deviations are recognised only through one-switch deviation models (anything else is a violation). Bounded exploration: holds for the sampled configurations and series.",
   design_ref="DESIGN.md §3 C01, Appendix A",
   note="Trusted: the reference readings in harness/internal/reg (Appendix A records where the doc comment is silent and the reference follows code/convention: those rows guard regressions only); IEEE float64; tolerance rule of DESIGN §3 C01.",
   technique="differential runtime monitoring of real executions against documented-formula slice references (one-switch deviation models for known findings)",
@@ -22,7 +22,7 @@ CHECKS = {
  ),
  "C03": dict(
   category="exploration",
-  text="All indicators and strategies (base, compound, decorated, nested) are run in a timer-free pure-Go child under 4 channel capacities x 4 pacings x 2-4 GOMAXPROCS settings, for lengths around the warm-up, empty inputs and unequal input lengths. Termination is decided by the Go runtime's own deadlock proof (no timeout), leaks by a goroutine census fixed point after each run, consumption by producers having to reach close, determinism by bit-equality across all schedule parameterisations; distinct observed receive interleavings are counted. Every type with two or more periods is also run with permuted, reversed and unrelated periods (termination, leaks and schedule independence only); a few pipelines are run with one reader, or the producer, really asleep for 1.25 s in mid-stream and compared with the eager run.",
+  text="All indicators and strategies (base, compound, decorated, nested) are run in a timer-free pure-Go child under 4 channel capacities x 4 pacings x 2-4 GOMAXPROCS settings, for lengths around the warm-up, empty inputs and unequal input lengths. Termination is decided by the Go runtime's own deadlock proof (no timeout), leaks by a goroutine census fixed point after each run, consumption by producers having to reach close, determinism by bit-equality across all schedule parameterisations; distinct observed receive interleavings are counted. Every type with two or more periods is also run with permuted, reversed and unrelated periods (termination, leaks and schedule independence only); strategies are also run through ComputeWithOutcome below and above their warm-up; a few pipelines are run with one reader, or the producer, really asleep for 1.25 s in mid-stream and compared with the eager run.",
   design_ref="DESIGN.md §3 C03, §1 E3, §7.2, §7.4",
   note="Trusted: the Go scheduler/runtime deadlock detector (children are built CGO_ENABLED=0 because a cgo extra M disables it); Kahn-network determinacy is what makes sampled schedules representative, and is itself monitored by the bit-equality oracle and C09's race runs.",
   technique="stress execution under varied schedules with runtime deadlock detector, goroutine census (leak monitor) and cross-schedule equality oracle",
@@ -71,7 +71,7 @@ CHECKS = {
  ),
  "C10": dict(
   category="exploration",
-  text="Random operation histories are applied in lock-step to a sequential map model and to the in-memory, file-system and SQL repositories (the SQL one through database/sql over an in-memory driver written for this purpose); every return value and error-ness is compared, and every Append is followed at once by a read of the same asset (visibility). Values cover all finite float64 incl. extremes; dates as the property restricts them. Concurrent histories (one writer per asset, 3-8 readers, plain and -race builds) are recorded with an atomic logical clock at the client boundary and every read is checked against the window of states its call/return interval admits (single-writer append-only linearizability, decided exactly because every appended snapshot is unique); the race detector watches the same runs. Histories also hand an unread Get stream to Append for another asset of the same repository, let several writers append to one asset of the in-memory repository (conservation and per-writer order), and append to an asset file that accepts no data (an error is required).",
+  text="Random operation histories are applied in lock-step to a sequential map model and to the in-memory, file-system and SQL repositories (the SQL one through database/sql over an in-memory driver written for this purpose); every return value and error-ness is compared, and every Append is followed at once by a read of the same asset (visibility). Values cover all finite float64 incl. extremes; dates as the property restricts them. Concurrent histories (one writer per asset, 3-8 readers, plain and -race builds) are recorded with an atomic logical clock at the client boundary and every read is checked against the window of states its call/return interval admits (single-writer append-only linearizability, decided exactly because every appended snapshot is unique); the race detector watches the same runs. Histories also hand an unread Get stream to Append for another asset of the same repository, let several writers append to one asset of the in-memory repository (conservation and per-writer order), and append to an asset file that accepts no data (an error is required); GetSince bounds carry times of day and other zones, and the process zone is varied.",
   design_ref="DESIGN.md §3 C10, §7.4",
   note="Trusted: harness/internal/fakesql as the 'conforming driver' (rows in insertion order, statements take effect before returning); for a name appended only with empty batches either an empty result or an error is accepted (SQL cannot tell it from an unknown name); concurrent readers of the file-system/SQL repositories are not overlapped with the writer of the SAME asset (their streams are lazy; the property speaks of sequences of calls), the in-memory repository is.",
   technique="lock-step model-based runtime monitoring of operation histories over three implementations + recorded concurrent histories checked for linearizability (unique-value prefix windows) + Go race detector",
@@ -106,7 +106,7 @@ CHECKS = {
  ),
  "C19": dict(
   category="fault_enumeration",
-  text="Every truncation offset of small valid documents, stacked grammar-aware corruptions and byte mutations are fed to the CSV reader (5 row shapes, with/without header, via reader and via file), the JSON stream reader and the Tiingo repository (13 status codes x body kinds through a fake RoundTripper, no network). Row types with fields the codec does not support (a named type built on time.Time, nested structs, pointers, slices) are read as well; the Tiingo repository is also obtained through asset.NewRepository and driven through Get / Assets / Append. Decided per document: no panic, the stream closes (runtime deadlock detector), delivered rows equal the records of the well-formed prefix computed by an independent reference, no goroutine left behind, response bodies closed, non-200 / missing files surface as errors.",
+  text="Every truncation offset of small valid documents, stacked grammar-aware corruptions and byte mutations are fed to the CSV reader (5 row shapes, with/without header, via reader and via file), the JSON stream reader and the Tiingo repository (13 status codes x body kinds through a fake RoundTripper, no network). HTTP bodies that start like a document and never end must not be read to their end (progress monitor in the body). Row types with fields the codec does not support (a named type built on time.Time, nested structs, pointers, slices) are read as well; the Tiingo repository is also obtained through asset.NewRepository and driven through Get / Assets / Append. Decided per document: no panic, the stream closes (runtime deadlock detector), delivered rows equal the records of the well-formed prefix computed by an independent reference, no goroutine left behind, response bodies closed, non-200 / missing files surface as errors.",
   design_ref="DESIGN.md §3 C19",
   note="Trusted: encoding/csv / encoding/json tokenisation (the reference uses the same standard-library tokenisers but its own field parsing). Closing the response body stands for 'no goroutine left behind' of the real HTTP transport. Unreadable-by-permission files cannot be produced as root.",
   technique="fault enumeration (all truncation offsets + corruption grammar) with crash/deadlock attribution, well-formed-prefix reference and goroutine census",
